@@ -238,12 +238,82 @@ package sstables
 //@   props C01 C02 C11
 //@   modifies nothing
 
+// Each writer / reader option sets its own field of the option record and nothing else.
+//@ func WriteBasePath$1
+//@   props C03 C09 C15 C01
+//@   requires args != nil
+//@   ensures [sets-its-own-field] args.basePath == p
+//@   modifies args.basePath
+//@ func IndexCompressionType$1
+//@   props C03 C09 C15 C01
+//@   requires args != nil
+//@   ensures [sets-its-own-field] args.indexCompressionType == p
+//@   modifies args.indexCompressionType
+//@ func DataCompressionType$1
+//@   props C03 C09 C15 C01
+//@   requires args != nil
+//@   ensures [sets-its-own-field] args.dataCompressionType == p
+//@   modifies args.dataCompressionType
+//@ func EnableBloomFilter$1
+//@   props C03 C09 C15 C01
+//@   requires args != nil
+//@   ensures [sets-its-own-field] args.enableBloomFilter
+//@   modifies args.enableBloomFilter
+//@ func BloomExpectedNumberOfElements$1
+//@   props C03 C09 C15 C01
+//@   requires args != nil
+//@   ensures [sets-its-own-field] args.bloomExpectedNumberOfElements == n
+//@   modifies args.bloomExpectedNumberOfElements
+//@ func WriteBufferSizeBytes$1
+//@   props C03 C09 C15 C01
+//@   requires args != nil
+//@   ensures [sets-its-own-field] args.writeBufferSizeBytes == bufSizeBytes
+//@   modifies args.writeBufferSizeBytes
+//@ func WithKeyComparator$1
+//@   props C03 C09 C15 C01
+//@   requires args != nil
+//@   ensures [sets-its-own-field] args.keyComparator == cmp
+//@   modifies args.keyComparator
+//@ func ReadBasePath$1
+//@   props C03 C09 C15 C01
+//@   requires args != nil
+//@   ensures [sets-its-own-field] args.basePath == p
+//@   modifies args.basePath
+//@ func ReadWithKeyComparator$1
+//@   props C03 C09 C15 C01
+//@   requires args != nil
+//@   ensures [sets-its-own-field] args.keyComparator == cmp
+//@   modifies args.keyComparator
+//@ func SkipHashCheckOnLoad$1
+//@   props C03 C09 C15 C01
+//@   requires args != nil
+//@   ensures [sets-its-own-field] args.skipHashCheckOnLoad
+//@   modifies args.skipHashCheckOnLoad
+//@ func EnableHashCheckOnReads$1
+//@   props C03 C09 C15 C01
+//@   requires args != nil
+//@   ensures [sets-its-own-field] !args.skipHashCheckOnRead
+//@   modifies args.skipHashCheckOnRead
+//@ func ReadBufferSizeBytes$1
+//@   props C03 C09 C15 C01
+//@   requires args != nil
+//@   ensures [sets-its-own-field] args.readBufferSizeBytes == size
+//@   modifies args.readBufferSizeBytes
+//@ func ReadIndexLoader$1
+//@   props C03 C09 C15 C01
+//@   requires args != nil
+//@   ensures [sets-its-own-field] args.indexLoader == il
+//@   modifies args.indexLoader
+
 // swOptsValid(w): what the constructor validates; Open relies on it (the bloom filter library panics on a size of zero).
 //@ spec func swOptsValid(w *SSTableStreamWriter) Bool = w.opts != nil && w.opts.keyComparator != nil && w.opts.bloomExpectedNumberOfElements > 0
 
 //@ func NewSSTableStreamWriter
-//@   assumed
-//@   ensures r1 == nil ==> r0 != nil && swOptsValid(r0)
+//@   assumed-frame
+//@   // (only the frame is assumed: the options are function values, what they write is pinned by the contracts of the option
+//@   //  literals below; the validation is verified against the body)
+//@   props C03 C15 C11 C01
+//@   ensures [C03,C15:validated-options] r1 == nil ==> r0 != nil && swOptsValid(r0)
 //@   ensures r1 != nil ==> r0 == nil
 //@   fresh r0
 //@   modifies nothing
@@ -311,13 +381,41 @@ package sstables
 //@   props C01 C02 C11
 //@   modifies nothing
 
+// The optional parts of a table directory. Only the frames are assumed (file reads go through library calls without a
+// contract); the error flow is verified: a part that exists and cannot be read fails the load, the metadata file is closed.
+//@ func readFilterIfExists
+//@   assumed-frame
+//@   props C03 C09
+//@   exit [C03:filter-read-error-reported] called(bloomfilter.ReadFile, 0) && callres(bloomfilter.ReadFile, 0, 2) != nil ==> r1 != nil && r0 == nil
+//@   exit [C03:the-filter-read-is-returned] r1 == nil && called(bloomfilter.ReadFile, 0) ==> r0 == callres(bloomfilter.ReadFile, 0, 0)
+//@   modifies nothing
+
+//@ func readMetaDataIfExists
+//@   assumed-frame
+//@   props C03 C09 C19
+//@   exit [C03:metadata-read-errors-reported] (called(os.Open, 0) && callres(os.Open, 0, 1) != nil) || (called(io.ReadAll, 0) && callres(io.ReadAll, 0, 1) != nil) ||
+//@        (called(proto.Unmarshal, 0) && callres(proto.Unmarshal, 0, 0) != nil) ==> err != nil
+//@   exit [C19:metadata-file-closed] called(os.Open, 0) && callres(os.Open, 0, 1) == nil ==> called(File.Close, 0)
+//@   ensures [metadata-or-error] err == nil ==> md != nil
+//@   modifies nothing
+
 //@ func NewSSTableReader
 //@   assumed
-//@   props C09
+//@   props C09 C03
 //@   replay table_damage
 //@   exit [C09:a-table-is-handed-out-only-after-validation] r1 == nil ==> called(SSTableReader.validateDataFile, 0) &&
 //@        callres(SSTableReader.validateDataFile, 0, 0) == nil && asType(*SSTableReader, r0) == reader
 //@   call 0 of SSTableReader.validateDataFile: assert [C09:validates-the-reader-it-returns] recv == reader && reader.opts == opts && reader.index == index
+//@   exit [C03,C09:no-load-error-is-dropped] r1 == nil ==> called(readMetaDataIfExists, 0) && callres(readMetaDataIfExists, 0, 1) == nil &&
+//@        called(IndexLoader.Load, 0) && callres(IndexLoader.Load, 0, 1) == nil && called(SortedKeyIndex.Open, 0) && callres(SortedKeyIndex.Open, 0, 0) == nil &&
+//@        called(readFilterIfExists, 0) && callres(readFilterIfExists, 0, 1) == nil
+//@   call 0 of SSTableReader.validateDataFile: assert [C03,C09:index-is-the-one-loaded] reader.index == callres(IndexLoader.Load, 0, 0)
+//@   call 0 of SSTableReader.validateDataFile: assert [C03,C09:filter-is-the-one-loaded] reader.bloomFilter == callres(readFilterIfExists, 0, 0)
+//@   call 0 of SSTableReader.validateDataFile: assert [C03,C09:metadata-is-the-one-loaded] reader.metaData == callres(readMetaDataIfExists, 0, 0)
+//@   call 0 of SSTableReader.validateDataFile: assert [C03,C09:comparator-and-loader-set] opts.keyComparator != nil && opts.indexLoader != nil
+//@   call 0 of SSTableReader.validateDataFile: assert [C03,C09:has-a-data-reader] reader.dataReader != nil || reader.v0DataReader != nil
+//@   exit [C03,C09:data-reader-opened] r1 == nil ==> (called(ReadAtI.Open, 0) && callres(ReadAtI.Open, 0, 0) == nil) || (called(ReadAtI.Open, 1) && callres(ReadAtI.Open, 1, 0) == nil)
+//@   call 0 of IndexLoader.Load: assert [C03:index-loaded-with-the-tables-metadata] arg1 == callres(readMetaDataIfExists, 0, 0)
 //@   ensures r1 == nil && len(readerOptions) > 0 ==> rpath(r0) == optPath(readerOptions[0])
 //@   ensures r1 == nil ==> r0 != nil && rclosed(r0) == 0
 //@   ensures r1 != nil ==> r0 == nil
